@@ -1083,6 +1083,41 @@ class PteraTransformer(NodeTransformer):
                     orig=node,
                 ),
             ]
+        elif (
+            isinstance(node.target, ast.Attribute)
+            and isinstance(node.target.value, ast.Name)
+            and (
+                self.should_instrument(node.target.value.id, None)
+                or self.should_instrument(
+                    f"{node.target.value.id}.{node.target.attr}", None
+                )
+            )
+        ):
+            # ``obj.attr += v`` stores obj.attr like ``obj.attr = ...`` does
+            obj, attr = node.target.value.id, node.target.attr
+            return [
+                self.generic_visit(node),
+                *self.make_interaction(
+                    ast.copy_location(
+                        ast.Attribute(
+                            value=ast.Name(id=obj, ctx=ast.Load()),
+                            attr=attr,
+                            ctx=ast.Store(),
+                        ),
+                        node,
+                    ),
+                    None,
+                    ast.copy_location(
+                        ast.Attribute(
+                            value=ast.Name(id=obj, ctx=ast.Load()),
+                            attr=attr,
+                            ctx=ast.Load(),
+                        ),
+                        node,
+                    ),
+                    orig=node,
+                ),
+            ]
         else:
             return self.generic_visit(node)
 
